@@ -30,6 +30,9 @@
  *   info_mod #k <op> <name|-> <value|->        tinfo_mod <op> <name|-> <value|->   (topology infos)
  *   subtype #k <s|->
  *   refresh
+ *   reload <flags>                           export to an XML buffer, destroy, load the buffer into a fresh topology with these
+ *                                            topology flags and the same type filters (e.g. after allow(CUSTOM): reload 0 drops
+ *                                            the disallowed PUs / NUMA nodes at load)
  *   touch                                    read accessors that refresh the lazy caches (distances, memattrs, cpukinds)
  */
 #include "hwv_dump.h"
@@ -182,6 +185,28 @@ static void pset_or_dash(hwloc_const_bitmap_t b) { hwv_pset(stdout, b); }
 #define ERR() hwv_errno_class(errno)
 
 /* ---------- calls ---------- */
+/* filter lines given before load, re-applied by reload */
+static char *saved_filters[64]; static unsigned nsaved;
+static void forget_filters(void) { while (nsaved) free(saved_filters[--nsaved]); }
+
+static void do_reload(char **tok, int n)
+{
+  unsigned long flags = n > 1 ? strtoul(tok[1], NULL, 0) : 0; unsigned i;
+  char *xml = NULL; int len = 0, rc; hwloc_topology_t nt = NULL;
+  printf("CALL reload flags=%lu\n", flags);
+  if (hwloc_topology_export_xmlbuffer(topo, &xml, &len, 0) < 0) { printf("RES export rc=-1 errno=%s\n", ERR()); return; }
+  if (hwloc_topology_init(&nt) < 0) { hwloc_free_xmlbuffer(topo, xml); printf("RES init rc=-1\n"); return; }
+  hwloc_topology_set_flags(nt, flags);
+  for (i = 0; i < nsaved; i++) { char *c = strdup(saved_filters[i]); hwv_config_line(nt, c); free(c); }
+  errno = 0; rc = hwloc_topology_set_xmlbuffer(nt, xml, len);
+  if (rc == 0) { errno = 0; rc = hwloc_topology_load(nt); }
+  printf("RES rc=%d errno=%s\n", rc, rc < 0 ? ERR() : "0");
+  hwloc_free_xmlbuffer(topo, xml);
+  if (rc < 0) { hwloc_topology_destroy(nt); return; }   /* keep the old topology */
+  hwloc_topology_destroy(topo);
+  topo = nt;
+}
+
 static void do_restrict(char **tok, int n)
 {
   int bad, rc; hwloc_bitmap_t s; unsigned long flags;
@@ -398,7 +423,7 @@ int main(void)
     if (!len || line[0] == '#') continue;
     if (!strcmp(line, "new")) {
       if (topo) hwloc_topology_destroy(topo);
-      loaded = 0; free(prevdump); prevdump = NULL; prevlen = 0;
+      loaded = 0; free(prevdump); prevdump = NULL; prevlen = 0; forget_filters();
       printf("new rc=%d\n", hwloc_topology_init(&topo));
     } else if (!strncmp(line, "echo ", 5)) {
       printf("%s\n", line);
@@ -415,7 +440,9 @@ int main(void)
       topo = NULL; loaded = 0;
       printf("destroy\n");
     } else if (topo && !loaded) {
-      int r = hwv_config_line(topo, line);
+      int r;
+      if (!strncmp(line, "filter ", 7) && nsaved < 64) saved_filters[nsaved++] = strdup(line);
+      r = hwv_config_line(topo, line);
       if (r == 0) printf("unknown-command %s\n", line);
       else if (r == 2) printf("config rc=-1 errno=%s\n", hwv_errno_class(errno));
       else if (r < 0) printf("config bad-line\n");
@@ -428,6 +455,7 @@ int main(void)
         hwloc_obj_t o = n > 1 ? obj_ref(tok[1]) : NULL;
         if (o) { o->userdata = &userdata_token; printf("CALL ud obj=%d\nRES ok\n", obj_id(o)); } else printf("CALL bad\nRES syntax\n");
       }
+      else if (!strcmp(tok[0], "reload")) do_reload(tok, n);
       else if (!strcmp(tok[0], "restrict")) do_restrict(tok, n);
       else if (!strcmp(tok[0], "misc")) do_misc(tok, n);
       else if (!strcmp(tok[0], "group")) do_group(tok, n);
@@ -447,7 +475,7 @@ int main(void)
     fflush(stdout);
   }
   if (topo) hwloc_topology_destroy(topo);
-  free(hwv_xmlbuf); free(prevdump); free(objv);
+  free(hwv_xmlbuf); free(prevdump); free(objv); forget_filters();
   free(line);
   return 0;
 }
